@@ -84,6 +84,14 @@ def checkBalanceInvariants (s : State) : Except Err Unit :=
     .error .illegalState
   else .ok ()
 
+/-- a transfer of `x` out of the actor, made only when `x` is positive -/
+def debit (s : State) (x : Int) : State :=
+  if 0 < x then { s with balance := s.balance - x } else s
+
+/-- `info.beneficiary_term.used_quota += amount; save_info`, done only when `amount` is positive -/
+def useQuota (s : State) (amount : Int) : State :=
+  if 0 < amount then { s with usedQuota := s.usedQuota + amount } else s
+
 /-- the transaction part of `withdraw_balance` → (state, amount withdrawn, newly vested, fee to burn) -/
 def withdrawTx (s : State) (caller : Nat) (epoch : Int) (requested : Int) :
     Except Err (State × Int × Int × Int) :=
@@ -110,8 +118,7 @@ def withdrawTx (s : State) (caller : Nat) (epoch : Int) (requested : Int) :
             if remaining = 0 then .error .forbidden
             else
               let amount := if amount ≤ remaining then amount else remaining
-              let s3 := if 0 < amount then { s2 with usedQuota := s2.usedQuota + amount } else s2
-              .ok (s3, amount, newlyVested, feeToBurn)
+              .ok (useQuota s2 amount, amount, newlyVested, feeToBurn)
           else .ok (s2, amount, newlyVested, feeToBurn)
 
 /-- `withdraw_balance`.  The message's `value` has already been credited to `s.balance`. -/
@@ -124,11 +131,11 @@ def withdraw (s : State) (env : Env) (caller : Nat) (epoch : Int) (requested : I
       -- send to the beneficiary
       if 0 < amount ∧ !env.sendOk then .error .sysError
       else
-        let s2 := if 0 < amount then { s1 with balance := s1.balance - amount } else s1
+        let s2 := debit s1 amount
         -- burn_funds
         if 0 < feeToBurn ∧ !env.burnOk then .error .sysError
         else
-          let s3 := if 0 < feeToBurn then { s2 with balance := s2.balance - feeToBurn } else s2
+          let s3 := debit s2 feeToBurn
           -- notify_pledge_changed(-newly_vested)
           if newlyVested ≠ 0 ∧ !env.notifyOk then .error .illegalState
           else match checkBalanceInvariants s3 with
